@@ -3,12 +3,37 @@
 #ifndef TETL_TYPE_TRAITS_MAKE_SIGNED_HPP
 #define TETL_TYPE_TRAITS_MAKE_SIGNED_HPP
 
+#include <etl/_type_traits/conditional.hpp>
+#include <etl/_type_traits/is_const.hpp>
+#include <etl/_type_traits/is_enum.hpp>
+#include <etl/_type_traits/is_integral.hpp>
+#include <etl/_type_traits/is_volatile.hpp>
+#include <etl/_type_traits/remove_cv.hpp>
+
 namespace etl {
 
 namespace detail {
 
-template <typename>
-struct make_signed;
+// Integral types other than the standard integer types (char, wchar_t, char8_t, char16_t,
+// char32_t) and enumerations: the signed integer type with the smallest rank that has the
+// same size.
+template <typename T>
+struct make_signed {
+    static_assert(is_integral_v<T> or is_enum_v<T>, "make_signed requires an integral or enumeration type");
+    using type = conditional_t<
+        sizeof(T) == sizeof(signed char),
+        signed char,
+        conditional_t<
+            sizeof(T) == sizeof(short),
+            short,
+            conditional_t<
+                sizeof(T) == sizeof(int),
+                int,
+                conditional_t<sizeof(T) == sizeof(long), long, long long>>>>;
+};
+
+template <>
+struct make_signed<bool>;
 
 template <>
 struct make_signed<signed char> {
@@ -76,7 +101,16 @@ struct make_signed<unsigned long long> {
 ///
 /// \ingroup type_traits
 template <typename Type>
-struct make_signed : etl::detail::make_signed<Type> { };
+struct make_signed {
+private:
+    using U = typename etl::detail::make_signed<remove_cv_t<Type>>::type;
+
+public:
+    using type = conditional_t<
+        is_const_v<Type>,
+        conditional_t<is_volatile_v<Type>, U const volatile, U const>,
+        conditional_t<is_volatile_v<Type>, U volatile, U>>;
+};
 
 template <typename T>
 using make_signed_t = typename make_signed<T>::type;
